@@ -12,8 +12,10 @@
    (t = Some p -> p in c_built) -> RInv w' /\ c_built only grows] is a preorder
    for every current target t, so the [pres] toolkit of ReplayLaws applies.
    roll_back consumes the invariant: removing the c_built files leaves
-   originals only, the directory steps touch no file, and restore_all then
-   succeeds entry by entry.
+   originals only, removing the empty directories touches no file,
+   restore_all then succeeds entry by entry, and re-creating the directories
+   of the previous build comes last: mkdir succeeds at an absent path only,
+   so it cannot disturb a file that is back in place.
 
    Side conditions of the main theorem [rollback_restores_files] (no faults):
    A  neither a regular file of the pre-state nor a target of this build is a
@@ -22,9 +24,14 @@
       "old output D makes way for directory D/ of a new target D/x", which the
       model rolls back correctly, but only thanks to the BuildDirs bookkeeping
       that this file does not analyse.)
-   B  no directory recorded by the old cache (c_dirs) is a regular file of the
-      pre-state.  Necessary: roll_back re-creates those directories before
-      restore_all, and restore_one skips a path at which a directory sits.
+   B  (dropped.)  It used to read "no directory recorded by the old cache
+      (c_dirs) is a regular file of the pre-state" and was necessary while
+      roll_back re-created those directories BEFORE restore_all (restore_one
+      skips a path at which a directory sits).  roll_back now restores first,
+      and nothing about c_dirs of the old cache is needed for this law: the
+      directories this build made are made at proper ancestors of targets
+      only (A keeps originals away from there), so clause "no directory sits
+      where fs0 has a regular file" holds at restore time without B.
    C  fs_wf of the pre-state.
    D  every regular file of the pre-state has a path of creatable names
       (path_ok); rename_out does not check names, replace_in / mkdir do.
@@ -1122,9 +1129,9 @@ Qed.
 (* 6. Roll back                                                        *)
 (* ================================================================== *)
 
-(* SIDE CONDITION B: no directory the old cache records as created by the
-   previous build is a regular file of the pre-state (roll_back re-creates them) *)
-Hypothesis HypB : forall d, In d (c_dirs old) -> notorig d.
+(* (The former SIDE CONDITION B -- no directory recorded by the old cache is a regular
+   file of the pre-state -- is gone: roll_back now re-creates those directories after
+   restore_all, see [roll_back_restores].) *)
 (* SIDE CONDITION C: the pre-state is well formed *)
 Hypothesis Hwf : fs_wf fs0.
 (* SIDE CONDITION D: the names on the way to a regular file of the pre-state can be created again *)
@@ -1183,11 +1190,30 @@ Proof.
   - intro e. destruct (is_os e); [apply pres_ret | apply pres_raise].
 Qed.
 
-Lemma create_dirs_files : forall ds, (forall d, In d ds -> notorig d) -> pres filesPO (create_dirs ds).
+(* mkdir succeeds at an absent path only, so it changes no regular file, wherever it is made *)
+Lemma mkdir_files_kept : forall d fs fs', mkdir fs d = inl fs' ->
+  forall q g, lookup fs' q = Some (NFile g) <-> lookup fs q = Some (NFile g).
 Proof.
-  intros ds Hds. unfold create_dirs. apply pres_mapM_In. intros d Hd. apply pres_catch.
-  - apply effect_files_same. apply mkdir_dirs_only. apply Hds. unfold sort_shortest_first in Hd.
-    apply In_sort_by' in Hd. exact Hd.
+  intros d fs fs' H q g. apply mkdir_frame in H. destruct H as (H1 & H2 & H3).
+  destruct (path_eqb q d) eqn:E.
+  - apply path_eqb_eq in E. subst q. rewrite H1, H2. split; intro X; discriminate X.
+  - apply path_eqb_neq in E. rewrite (H3 q E). tauto.
+Qed.
+
+Lemma effect_files_kept : forall what p f,
+  (forall fs fs', f fs = inl fs' -> forall q g, lookup fs' q = Some (NFile g) <-> lookup fs q = Some (NFile g)) ->
+  pres filesPO (effect what p f).
+Proof.
+  intros what p f Hf w w' r H. destruct (effect_fields' _ _ _ _ _ _ H) as (_ & _ & _ & _ & _ & [F|F]).
+  - intros q g. rewrite F. tauto.
+  - exact (Hf _ _ F).
+Qed.
+
+(* no side condition on [ds]: a directory is made at an absent path only *)
+Lemma create_dirs_files : forall ds, pres filesPO (create_dirs ds).
+Proof.
+  intros ds. unfold create_dirs. apply pres_mapM_. intros d. apply pres_catch.
+  - apply effect_files_kept. intros fs fs'. apply mkdir_files_kept.
   - intro e. destruct (is_os e); [apply pres_ret | apply pres_raise].
 Qed.
 
@@ -1347,7 +1373,25 @@ Proof.
     + destruct (restore_one_ok _ _ _ _ _ _ E1 Ho HR) as (X & _). discriminate X.
 Qed.
 
-(* from the invariant to "every original file is back" *)
+(* phase 3: with nothing but originals in place, restore_all puts every original back
+   (whether or not it reports an exception) *)
+Lemma restore_all_restores : forall w w' r, restore_all w = (w', r) -> RInv w -> files_in [] w ->
+  forall p f, origfile p f -> lookup (w_fs w') p = Some (NFile f).
+Proof.
+  intros w w' r H Hinv J. unfold restore_all in H. unfold bind at 1, get in H.
+  apply bind_inv in H. destruct H as [(w4 & u4 & E4 & H) | (e & E4 & _)]; [|discriminate E4].
+  unfold put in E4. inversion E4; subst w4; clear E4.
+  destruct Hinv as (A & _ & _ & I1 & I2 & _ & _ & _ & I6).
+  assert (HR : Rst (w_backups w) (set_backups [] w)).
+  { unfold Rst. cbn [w_faults w_fs set_backups]. split; [exact A|]. split; [|split; [exact I6 | exact I1]].
+    intros q g Hq. destruct (J q g Hq) as [X|[]]. exact X. }
+  destruct (restore_loop _ _ _ _ H I2 HR) as (_ & _ & _ & R4).
+  intros p f Ho. destruct (R4 p f Ho) as [X|[]]. exact X.
+Qed.
+
+(* from the invariant to "every original file is back".  The directories of the previous
+   build are re-created AFTER the files are back: a directory is made at an absent path
+   only, so that last step cannot disturb a regular file, whatever the old cache records. *)
 Theorem roll_back_restores : forall ccd w w' r, roll_back ccd w = (w', r) -> RInv w ->
   forall p f, origfile p f -> lookup (w_fs w') p = Some (NFile f).
 Proof.
@@ -1362,23 +1406,12 @@ Proof.
   assert (T0 : forall v, tcond None v) by (intros v q X; discriminate X).
   destruct (remove_empty_dirs_T None _ _ _ _ E2 Hinv1 (T0 _)) as [Hinv2 _].
   pose proof (remove_empty_dirs_files _ _ _ _ E2) as S2.
-  apply bind_inv in H. destruct H as [(w3 & u3 & E3 & H) | (e & E3 & _)];
-    [|exfalso; exact (create_dirs_no_raise _ _ _ _ E3)].
-  assert (Hold : w_old w = old) by (destruct Hinv as (_ & B & _); exact B).
-  rewrite Hold in E3.
-  destruct (create_dirs_T None _ HypB _ _ _ E3 Hinv2 (T0 _)) as [Hinv3 _].
-  pose proof (create_dirs_files _ HypB _ _ _ E3) as S3.
-  assert (J3 : files_in [] w3).
-  { intros q g Hq. apply J1. apply S2. apply S3. exact Hq. }
-  unfold restore_all in H. unfold bind at 1, get in H.
-  apply bind_inv in H. destruct H as [(w4 & u4 & E4 & H) | (e & E4 & _)]; [|discriminate E4].
-  unfold put in E4. inversion E4; subst w4; clear E4.
-  destruct Hinv3 as (A & _ & _ & I1 & I2 & _ & _ & _ & I6).
-  assert (HR : Rst (w_backups w3) (set_backups [] w3)).
-  { unfold Rst. cbn [w_faults w_fs set_backups]. split; [exact A|]. split; [|split; [exact I6 | exact I1]].
-    intros q g Hq. destruct (J3 q g Hq) as [X|[]]. exact X. }
-  destruct (restore_loop _ _ _ _ H I2 HR) as (_ & _ & _ & R4).
-  intros p f Ho. destruct (R4 p f Ho) as [X|[]]. exact X.
+  assert (J2 : files_in [] w2).
+  { intros q g Hq. apply J1. apply S2. exact Hq. }
+  apply bind_inv in H. destruct H as [(w3 & u3 & E3 & H) | (e & E3 & _)].
+  - pose proof (create_dirs_files _ _ _ _ H) as S3.
+    intros p f Ho. apply S3. exact (restore_all_restores _ _ _ E3 Hinv2 J2 p f Ho).
+  - exact (restore_all_restores _ _ _ E3 Hinv2 J2).
 Qed.
 
 (* ================================================================== *)
@@ -1837,14 +1870,12 @@ Theorem rollback_restores_files : forall cf nm vers svers root w w' e (P : path 
      target, of the cache file or of a target recorded in the old cache *)
   (forall a t, (P t \/ t = cf \/ In t (cache_targets (old_cache_of (w_fs w) cf nm svers))) ->
      below a t = true -> (forall f, lookup (w_fs w) a <> Some (NFile f)) /\ ~ P a) ->
-  (* B: no directory recorded as created by the old cache is a regular file of the pre-state *)
-  (forall d, In d (c_dirs (old_cache_of (w_fs w) cf nm svers)) -> forall f, lookup (w_fs w) d <> Some (NFile f)) ->
   (* E: the directories recorded by the old cache have creatable names *)
   (forall d, In d (c_dirs (old_cache_of (w_fs w) cf nm svers)) -> path_ok d = true) ->
   run_build cf nm vers root w = (w', Done (inr e)) ->
   forall p f, lookup (w_fs w) p = Some (NFile f) -> lookup (w_fs w') p = Some (NFile f).
 Proof.
-  intros cf nm vers svers root w w' e P Hf Hsv Hat Hwf Hnames HA HB HE H.
+  intros cf nm vers svers root w w' e P Hf Hsv Hat Hwf Hnames HA HE H.
   set (old := old_cache_of (w_fs w) cf nm svers) in *.
   unfold run_build in H.
   destruct (m_build cf nm vers (fun w0 => run root None [] w0) w) as [w1 r1] eqn:E.
@@ -1856,7 +1887,7 @@ Proof.
   { intros err v v' e0 Hv X. eapply commit_no_raise; [|exact X]. rewrite Hv. exact HE. }
   assert (G : forall old0, old0 = old -> m_accept cf nm svers (fun w0 => run root None [] w0) w old0 = (w1, Done (inr e)) ->
               forall p f, lookup (w_fs w) p = Some (NFile f) -> lookup (w_fs w1) p = Some (NFile f)).
-  { intros old0 -> X. exact (m_accept_restores (w_fs w) old cf P HA HB Hwf Hnames Hcommit nm svers _ w w1 e eq_refl Hf Hroot X). }
+  { intros old0 -> X. exact (m_accept_restores (w_fs w) old cf P HA Hwf Hnames Hcommit nm svers _ w w1 e eq_refl Hf Hroot X). }
   rewrite m_build_unfold, Hsv in E. subst old. unfold old_cache_of in G.
   destruct (lookup (w_fs w) cf) as [[g|]|].
   - destruct (cache_of_json (f_json g)) as [old0| |]; try discriminate E.
